@@ -534,13 +534,14 @@ def web_api( http=None):
 # enip_srv_udp	-- Service multiple UDP/IP peers (limited web interface control)
 # enip_srv_tcp	-- Service one TCP/IP peer
 # 
-def stats_for( peer ):
-    """If no peer address provided, we won't have a stats entry 'til first data received."""
+def stats_for( peer, fresh=False ):
+    """If no peer address provided, we won't have a stats entry 'til first data received.  A new
+    connection (fresh) never takes over the entry of an earlier one from the same peer address."""
     global connections
     if peer is None:
         return None,None
     connkey			= "%s_%d" % ( peer[0].replace( '.', '_' ), peer[1] )
-    stats			= connections.get( connkey )
+    stats			= None if fresh else connections.get( connkey )
     if stats is not None:
         return stats,connkey
     stats			= apidict( timeout=defaults.timeout )
@@ -728,7 +729,9 @@ def enip_srv_tcp( conn, addr, name, enip_process, delay=None, **kwds ):
         # indexing to change stats values, so we don't block ourself!
         try:
             assert addr, "EtherNet/IP CIP server for TCP/IP must be provided a peer address"
-            stats,connkey	= stats_for( addr )
+            # The thread serving an earlier connection from the same peer address may still be
+            # winding down: its stats (and its eof) are not ours.
+            stats,connkey	= stats_for( addr, fresh=True )
             while not stats.eof:
                 data		= dotdict()
 
@@ -859,8 +862,10 @@ def enip_srv_tcp( conn, addr, name, enip_process, delay=None, **kwds ):
         finally:
             # Not strictly necessary to close (network.server_main will discard the socket,
             # implicitly closing it), but we'll do it explicitly here in case the thread doesn't die
-            # for some other reason.  Clean up the connections entry for this connection address.
-            connections.pop( connkey, None )
+            # for some other reason.  Clean up the connections entry for this connection address
+            # (unless a later connection from the same peer address has already replaced it).
+            if connections.get( connkey ) is stats:
+                connections.pop( connkey, None )
             log.normal( "%s done; processed %3d request%s over %5d byte%s/%5d received (%d connections remain)", name,
                         stats.requests,  " " if stats.requests == 1  else "s",
                         stats.processed, " " if stats.processed == 1 else "s", stats.received,
